@@ -44,6 +44,19 @@ def families():
     fam.append(("array-repeat-return", lambda T, a: main_fn(P(T), [], ArrRep(L(T, 1, a), 2))))
     fam.append(("array-literal-return", lambda T, a: main_fn(P(T), [], ArrLit([L(T, 1, a), L(T, 2, a)]))))
     fam.append(("array-literal-mixed", lambda T, a: main_fn(P(T), [], ArrLit([L(T, 1, a), x(T)]))))
+    # literal and typed elements mixed in one aggregate / branch that is bound without an annotation: the typed
+    # element fixes the type of every literal next to it, whatever its position
+    A2 = lambda T: Var("arr", TArr(T, 2))
+    A3 = lambda T: Var("arr", TArr(T, 3))
+    fam.append(("array-let-mixed-first", lambda T, a: main_fn(P(T), [Let(PVar("arr"), ArrLit([L(T, 1, a), x(T)]), annot=TArr(T, 2) if a else None)], A2(T))))
+    fam.append(("array-let-mixed-last", lambda T, a: main_fn(P(T), [Let(PVar("arr"), ArrLit([x(T), L(T, 1, a)]), annot=TArr(T, 2) if a else None)], A2(T))))
+    fam.append(("array-let-mixed-middle", lambda T, a: main_fn(P(T), [Let(PVar("arr"), ArrLit([L(T, 1, a), x(T), L(T, 2, a)]), annot=TArr(T, 3) if a else None)], A3(T))))
+    fam.append(("array-letmut-mixed-first", lambda T, a: main_fn(P(T), [LetMut("arr", ArrLit([L(T, 1, a), x(T)]), annot=TArr(T, 2) if a else None), Assign("arr", TArr(T, 2), [("idx", Lit(USIZE, 1, suffix=a))], x(T), "^")], A2(T))))
+    fam.append(("array-mixed-first-index", lambda T, a: main_fn(P(T), [], Bin("+", Index(ArrLit([L(T, 1, a), x(T)]), Lit(USIZE, 0, suffix=a)), x(T)))))
+    fam.append(("if-let-mixed", lambda T, a: main_fn(P(T), [Let(PVar("y"), If(c, Block([], L(T, 1, a)), Block([], x(T))), annot=T if a else None)], Bin("+", Var("y", T), x(T)))))
+    fam.append(("if-let-mixed-else", lambda T, a: main_fn(P(T), [Let(PVar("y"), If(c, Block([], x(T)), Block([], L(T, 1, a))), annot=T if a else None)], Bin("+", Var("y", T), x(T)))))
+    fam.append(("match-let-mixed", lambda T, a: main_fn(P(T), [Let(PVar("y"), Match(c, [(PLit(BOOL, 1), L(T, 1, a)), (PLit(BOOL, 0), x(T))], T), annot=T if a else None)], Bin("+", Var("y", T), x(T)))))
+    fam.append(("tuple-of-arrays-mixed", lambda T, a: main_fn(P(T), [Let(PVar("t"), TupLit([ArrLit([L(T, 1, a), x(T)]), Lit(BOOL, 1)]))], TupGet(Var("t", TTup([TArr(T, 2), BOOL])), 0))))
     fam.append(("array-let-index", lambda T, a: main_fn(P(T), [Let(PVar("arr"), ArrLit([L(T, 1, a), L(T, 2, a)]), annot=TArr(T, 2) if a else None)],
                                                          Bin("+", Index(Var("arr", TArr(T, 2)), Lit(USIZE, 0, suffix=a)), x(T)))))
     fam.append(("array-repeat-let", lambda T, a: main_fn(P(T), [Let(PVar("arr"), ArrRep(L(T, 3, a), 3), annot=TArr(T, 3) if a else None)],
